@@ -124,7 +124,8 @@ Inductive status :=
 Inductive op :=
   | OAdd (loc : bytes) (white : bool)
   | OSetUrl (old new : bytes) (enabled white : bool)
-  | ORefresh (white : bool).
+  | ORefresh (white : bool)
+  | OPeriodic (due : list bytes).
 
 Definition url_exists (st : state) (u : bytes) : bool :=
   existsb (fun f => eqb_bytes (f_url f) u) (s_block st) ||
@@ -259,11 +260,45 @@ Definition refresh (w : world) (st : state) (white : bool) : state * status * li
   (set_list st white (map (apply_refresh dead) rs),
    if dead then SPanic else SOk (count_new rs), evs).
 
+(** The periodic path: the timer of updatesLoop calls
+    periodicallyRefreshFilters, which runs tryRefreshFilters(block, allow,
+    force = false): listsToUpdate takes only the enabled entries whose
+    LastUpdated + interval has passed (here: whose location is in [due]; the
+    harness sets the time stamps), first over the block lists, then over the
+    allow lists.  A panic in the first pass ends the call.  The number of
+    updated lists is not returned to anybody. *)
+Fixpoint refresh_pass_sel (w : world) (sel : flt -> bool) (l : list flt)
+  : list (flt * upd_res) * list event * bool :=
+  match l with
+  | [] => ([], [], false)
+  | f :: r =>
+      if sel f then
+        let (ev, res) := update w f in
+        match res with
+        | UPanic => (map (fun g => (g, UErr)) l, [ev], true)
+        | _ => let '(rs, evs, dead) := refresh_pass_sel w sel r in ((f, res) :: rs, ev :: evs, dead)
+        end
+      else
+        let '(rs, evs, dead) := refresh_pass_sel w sel r in ((f, UErr) :: rs, evs, dead)
+  end.
+
+Definition is_due (due : list bytes) (f : flt) : bool := f_enabled f && mem_bytes (f_url f) due.
+
+Definition periodic (w : world) (st : state) (due : list bytes) : state * status * list event :=
+  let '(rs, evs, dead) := refresh_pass_sel w (is_due due) (s_block st) in
+  let st1 := set_list st false (map (apply_refresh dead) rs) in
+  if dead then (st1, SPanic, evs)
+  else
+    let '(rs2, evs2, dead2) := refresh_pass_sel w (is_due due) (s_allow st1) in
+    (set_list st1 true (map (apply_refresh dead2) rs2),
+     if dead2 then SPanic else SOk 0, evs ++ evs2).
+
 Definition step (w : world) (st : state) (o : op) : state * status * list event :=
   match o with
   | OAdd loc white => add w st loc white
   | OSetUrl old new enabled white => set_url w st old new enabled white
   | ORefresh white => refresh w st white
+  | OPeriodic due => periodic w st due
   end.
 
 (** A history: the statuses and the events of every step, and the final state. *)
